@@ -13,16 +13,20 @@ mod linebuffer_common;
 mod searcher_common;
 use grep_matcher::LineTerminator;
 use grep_regex::{RegexMatcher, RegexMatcherBuilder};
-use grep_searcher::{MmapChoice, SearcherBuilder};
+use grep_searcher::{BinaryDetection, MmapChoice, SearcherBuilder};
 use linebuffer_common::*;
 use rgverif_harness::*;
 use std::path::{Path, PathBuf};
 
-const PATTERNS: [&str; 20] = [
+const PATTERNS: [&str; 33] = [
     "a", "b", "ab", "^a", "c$", "[ab]c", "x", " ", "a.*c", "^$", r"\bx\b", "aaaa", "[^a]", "^", "zzz", "c x|b",
     // can match `\r` but never `\n`: under CRLF `multi_line(true)` must still be downgraded (the
     // terminator's required byte is `\n`)
     r"[^\n]+a", r"a\r?", r"[^\n]c", r"b[^\n]*",
+    // haystack anchors and non-multi-line anchors, negated word boundary
+    r"\Aa", r"c\z", r"(?-m:^)a", r"c(?-m:$)", r"\Bb", r"a\B", r"\A", r"\z", r"(?-m:^)", r"\B",
+    // Unicode-aware classes / boundaries (inputs may hold non-ASCII and invalid UTF-8 bytes)
+    r"\w+", r"\W\B", r"\b\w",
 ];
 
 /// UTF-8 / UTF-16 byte order marks: with `bom_sniffing(false)` they are ordinary bytes for every strategy
@@ -33,6 +37,8 @@ enum Lt {
     Lf,
     Crlf,
     Nul,
+    /// an arbitrary terminator byte (`LineTerminator::byte(b';')`)
+    Semi,
 }
 
 #[derive(Clone, Debug)]
@@ -40,6 +46,8 @@ enum Input {
     Hex(Vec<u8>),
     /// generated: seed, lines, max line length (keeps replay files small for long inputs)
     Gen(u64, usize, usize),
+    /// generated: a few very long lines (longer than the 64 KiB roll buffer, which has to grow)
+    Long(u64),
 }
 
 #[derive(Clone, Debug)]
@@ -50,6 +58,8 @@ enum Strat {
     Path { mmap: bool, ml: bool },
     /// search_slice with multi_line requested
     SliceMl,
+    /// search_file on an open `File`: mmap on/off, multi_line
+    File { mmap: bool, ml: bool },
 }
 
 #[derive(Clone, Debug)]
@@ -67,21 +77,47 @@ struct Ds {
     stop: Option<usize>,
     /// `bom_sniffing` (default on); off: no BOM handling at all, inputs may start with a BOM
     sniff: bool,
+    /// binary detection: 0 none, 1 `quit(0)`, 2 `convert(0)`
+    det: u8,
     input: Input,
     strats: Vec<Strat>,
 }
 
 fn lt_byte(lt: Lt) -> u8 {
-    if lt == Lt::Nul {
-        0
-    } else {
-        b'\n'
+    match lt {
+        Lt::Nul => 0,
+        Lt::Semi => b';',
+        _ => b'\n',
+    }
+}
+
+fn lt_term(lt: Lt) -> LineTerminator {
+    match lt {
+        Lt::Lf => LineTerminator::byte(b'\n'),
+        Lt::Crlf => LineTerminator::crlf(),
+        Lt::Nul => LineTerminator::byte(0),
+        Lt::Semi => LineTerminator::byte(b';'),
     }
 }
 
 fn materialise(inp: &Input, lt: Lt) -> Vec<u8> {
     match inp {
         Input::Hex(v) => v.clone(),
+        Input::Long(seed) => {
+            let mut rng = Rng::new(*seed);
+            let mut out = vec![];
+            for len in [rng.range(66000, 140000), rng.range(0, 40), rng.range(65530, 65545), rng.range(1, 3000)] {
+                for _ in 0..len {
+                    let b = *rng.pick(b"aabc xaabc x\n\r\0");
+                    out.push(if b == lt_byte(lt) { b'a' } else { b });
+                }
+                if lt == Lt::Crlf {
+                    out.push(b'\r');
+                }
+                out.push(lt_byte(lt));
+            }
+            out
+        }
         Input::Gen(seed, lines, maxlen) => {
             let mut rng = Rng::new(*seed);
             let mut out = vec![];
@@ -112,6 +148,7 @@ fn strat_str(s: &Strat) -> String {
         }
         Strat::Path { mmap, ml } => format!("p:{}:{}", *mmap as u8, *ml as u8),
         Strat::SliceMl => "s".to_string(),
+        Strat::File { mmap, ml } => format!("f:{}:{}", *mmap as u8, *ml as u8),
     }
 }
 
@@ -124,6 +161,7 @@ fn parse_strat(s: &str) -> Option<Strat> {
         }
         "p" if f.len() == 3 => Some(Strat::Path { mmap: f[1] == "1", ml: f[2] == "1" }),
         "s" => Some(Strat::SliceMl),
+        "f" if f.len() == 3 => Some(Strat::File { mmap: f[1] == "1", ml: f[2] == "1" }),
         _ => None,
     }
 }
@@ -133,15 +171,17 @@ impl Ds {
         let inp = match &self.input {
             Input::Hex(v) => hex(v),
             Input::Gen(s, l, m) => format!("gen:{}:{}:{}", s, l, m),
+            Input::Long(s) => format!("long:{}", s),
         };
         format!(
-            "ds pat={} fast={} lt={} A={} B={} pt={} inv={} ln={} son={} stop={} sniff={} inp={} strats={}",
+            "ds pat={} fast={} lt={} A={} B={} pt={} inv={} ln={} son={} stop={} sniff={} det={} inp={} strats={}",
             hex(self.pat.as_bytes()),
             self.fast as u8,
             match self.lt {
                 Lt::Lf => "lf",
                 Lt::Crlf => "crlf",
                 Lt::Nul => "nul",
+                Lt::Semi => "semi",
             },
             self.after,
             self.before,
@@ -151,6 +191,7 @@ impl Ds {
             self.son as u8,
             self.stop.map_or("-".to_string(), |k| k.to_string()),
             self.sniff as u8,
+            self.det,
             inp,
             self.strats.iter().map(strat_str).collect::<Vec<_>>().join("|")
         )
@@ -159,7 +200,9 @@ impl Ds {
         let get = |k: &str| parts.iter().find_map(|p| p.strip_prefix(k).and_then(|r| r.strip_prefix('=')));
         let b = |k: &str| get(k).map(|v| v == "1");
         let inp = get("inp")?;
-        let input = if let Some(r) = inp.strip_prefix("gen:") {
+        let input = if let Some(r) = inp.strip_prefix("long:") {
+            Input::Long(r.parse().ok()?)
+        } else if let Some(r) = inp.strip_prefix("gen:") {
             let f: Vec<&str> = r.split(':').collect();
             if f.len() != 3 {
                 return None;
@@ -175,6 +218,7 @@ impl Ds {
                 "lf" => Lt::Lf,
                 "crlf" => Lt::Crlf,
                 "nul" => Lt::Nul,
+                "semi" => Lt::Semi,
                 _ => return None,
             },
             after: get("A")?.parse().ok()?,
@@ -188,6 +232,7 @@ impl Ds {
                 Some(k) => Some(k.parse().ok()?),
             },
             sniff: get("sniff").map_or(true, |v| v == "1"),
+            det: get("det").map_or(Some(0), |v| v.parse().ok())?,
             input,
             strats: get("strats")?.split('|').filter(|s| !s.is_empty()).map(parse_strat).collect::<Option<Vec<_>>>()?,
         })
@@ -205,6 +250,9 @@ impl Ds {
             (true, Lt::Nul) => {
                 b.line_terminator(Some(0));
             }
+            (true, Lt::Semi) => {
+                b.line_terminator(Some(b';'));
+            }
             (false, Lt::Crlf) => {
                 b.crlf(true).line_terminator(None);
             }
@@ -214,30 +262,41 @@ impl Ds {
     }
     fn builder(&self) -> SearcherBuilder {
         let mut b = SearcherBuilder::new();
-        b.line_terminator(match self.lt {
-            Lt::Lf => LineTerminator::byte(b'\n'),
-            Lt::Crlf => LineTerminator::crlf(),
-            Lt::Nul => LineTerminator::byte(0),
-        })
+        b.line_terminator(lt_term(self.lt))
         .after_context(self.after)
         .before_context(self.before)
         .passthru(self.passthru)
         .invert_match(self.invert)
         .line_number(self.line_number)
         .stop_on_nonmatch(self.son)
-        .bom_sniffing(self.sniff);
+        .bom_sniffing(self.sniff)
+        .binary_detection(match self.det {
+            1 => BinaryDetection::quit(0),
+            2 => BinaryDetection::convert(0),
+            _ => BinaryDetection::none(),
+        });
         b
+    }
+    /// With binary detection on, the strategies look for the NUL in different places BY DESIGN
+    /// (`Searcher` docs: a heuristic): slices / memory maps sniff the first 64 KiB up front and then only
+    /// the lines they deliver; the roll buffer sees every byte it reads, one buffer at a time, and
+    /// `convert` rewrites the NUL there. The strategies are required to agree when there is no NUL, and in
+    /// `quit` mode when the first NUL lies inside the first window of both: inside the first 64 KiB and
+    /// inside the first read (`first_read`: how many bytes the first successful read hands over at least).
+    /// Returns `true` when the strategies may disagree on this input.
+    fn detection_windows_differ(&self, seen: &[u8], first_read: usize) -> bool {
+        match (self.det, seen.iter().position(|&b| b == 0)) {
+            (0, _) | (_, None) => false,
+            (1, Some(n)) => !(n < 65536 && n < first_read),
+            _ => true,
+        }
     }
     /// `Searcher::multi_line_with_matcher` by the documented rule, computed here (NOT asked of the
     /// code under test): a `multi_line(true)` search is line by line iff the matcher announces the
     /// searcher's terminator, or can never match the terminator's required byte (`\n` for CRLF).
     fn expect_ml_downgrade(&self, m: &RegexMatcher) -> bool {
         use grep_matcher::Matcher;
-        let lt = match self.lt {
-            Lt::Lf => LineTerminator::byte(b'\n'),
-            Lt::Crlf => LineTerminator::crlf(),
-            Lt::Nul => LineTerminator::byte(0),
-        };
+        let lt = lt_term(self.lt);
         if m.line_terminator() == Some(lt) {
             return true;
         }
@@ -280,7 +339,7 @@ fn run_reader(
     (finish_events(sink, r), rdr.log)
 }
 
-fn run_path(d: &Ds, m: &RegexMatcher, path: &Path, mmap: bool, ml: bool) -> Vec<String> {
+fn run_path_or_file(d: &Ds, m: &RegexMatcher, path: &Path, mmap: bool, ml: bool, as_file: bool) -> Vec<String> {
     let mut b = d.builder();
     b.multi_line(ml);
     if mmap {
@@ -291,7 +350,14 @@ fn run_path(d: &Ds, m: &RegexMatcher, path: &Path, mmap: bool, ml: bool) -> Vec<
     }
     let mut s = b.build();
     let mut sink = RecSink::stopping(d.stop);
-    let r = s.search_path(m, path, &mut sink);
+    let r = if as_file {
+        match std::fs::File::open(path) {
+            Ok(f) => s.search_file(m, &f, &mut sink),
+            Err(e) => Err(e),
+        }
+    } else {
+        s.search_path(m, path, &mut sink)
+    };
     finish_events(sink, r)
 }
 
@@ -328,25 +394,201 @@ fn first_diff(a: &[String], b: &[String]) -> String {
     "no difference".into()
 }
 
-/// Known-finding class of a difference, "" if none applies.
-fn classify(d: &Ds, spec: &[String], got: &[String], script: &[Step]) -> &'static str {
-    // F10b: the sink stops the search while the fast path's `pos` is not the end of the stopping
-    // line — ahead of it inside a run of inverted matches (pos was moved to the end of the line that
-    // ends the run as far as the buffer shows it), or behind it when a context line is refused before
-    // `set_pos(line.end())` — so the byte count depends on the buffer extent; everything else is equal
-    if d.stop.is_some() && spec.len() == got.len() && !spec.is_empty() {
-        let n = spec.len() - 1;
-        if spec[..n] == got[..n] && spec[n].starts_with("finish ") && got[n].starts_with("finish ") {
-            return "sink-stop-fast-path-byte-count";
+/// F17 / F17b mechanism test: the matcher's verdict on a `term`-terminated line depends on what surrounds the
+/// line (its anchors / word boundaries are LF-based because it was built without the NUL line
+/// terminator): for some line, "matches when asked about the line alone" differs from "matches within
+/// the line when asked in the whole input".  Without such a line the class may not be used.
+fn f17_mechanism(m: &RegexMatcher, inp: &[u8], term: u8) -> bool {
+    use grep_matcher::Matcher;
+    let mut s = 0usize;
+    while s < inp.len() {
+        let e = inp[s..].iter().position(|&b| b == term).map_or(inp.len(), |i| s + i);
+        let alone = m.is_match(&inp[s..e]).unwrap_or(false);
+        let in_ctx = match m.find_at(inp, s) {
+            Ok(Some(mt)) => mt.start() <= e && mt.end() <= e,
+            _ => false,
+        };
+        if alone != in_ctx {
+            return true;
+        }
+        s = e + 1;
+    }
+    false
+}
+
+/// F2 / F24 mechanism test for LF / CRLF: some line's verdict "asked alone, terminator stripped" differs
+/// from "a match inside the line's content when asked in the whole input".
+fn linesafe_mechanism(m: &RegexMatcher, inp: &[u8], crlf: bool) -> bool {
+    use grep_matcher::Matcher;
+    let mut s = 0usize;
+    while s < inp.len() {
+        let nl = inp[s..].iter().position(|&b| b == b'\n').map_or(inp.len(), |i| s + i);
+        let mut e = nl;
+        if crlf && e > s && nl < inp.len() && inp[e - 1] == b'\r' {
+            e -= 1;
+        }
+        let alone = m.is_match(&inp[s..e]).unwrap_or(false);
+        let in_ctx = match m.find_at(inp, s) {
+            Ok(Some(mt)) => mt.start() <= e && mt.end() <= e,
+            _ => false,
+        };
+        if alone != in_ctx {
+            return true;
+        }
+        s = nl + 1;
+    }
+    false
+}
+
+/// The input as the searcher sees it behind the transcoder: every line of a passthru search through
+/// the default 64 KiB roll buffer with full-size reads (the decoder always gets plenty of room).
+fn transcoded_text(d: &Ds, inp: &[u8]) -> Option<Vec<u8>> {
+    let m = RegexMatcherBuilder::new().build("zzzzqqqq").ok()?;
+    let mut s = SearcherBuilder::new()
+        .line_terminator(lt_term(d.lt))
+        .passthru(true)
+        .line_number(false)
+        .bom_sniffing(true)
+        .build();
+    let mut sink = RecSink::new();
+    s.search_reader(&m, inp, &mut sink).ok()?;
+    let mut out = vec![];
+    for e in &sink.ev {
+        if e.starts_with('c') || e.starts_with("m ") {
+            out.extend_from_slice(&unhex(e.rsplit(' ').next()?)?);
         }
     }
-    // the matcher's line anchors are LF-based (no NUL terminator configured on it, which is what
-    // `rg -U --null-data` builds) while the searcher splits on NUL: matches depend on where the
-    // buffer happens to start
-    if d.lt == Lt::Nul && !d.fast && (d.pat.contains('^') || d.pat.contains('$') || d.pat.contains("\\b")) {
+    Some(out)
+}
+
+/// `Core::is_line_by_line_fast` for the matcher / searcher of this case before any match, computed
+/// from what the matcher object really announces (grep-regex is not under test here): note that a
+/// `RegexMatcher` built with a line terminator reports `line_terminator() = None` when it uses its
+/// inner-literal line regex, so even a NUL-terminator matcher can end up on the fast path through
+/// `non_matching_bytes`.
+fn fast_path_taken(d: &Ds, m: &RegexMatcher) -> bool {
+    use grep_matcher::Matcher;
+    if d.passthru || (d.son && d.invert) {
+        return false;
+    }
+    let lt = lt_term(d.lt);
+    if let Some(t) = m.line_terminator() {
+        if t.as_byte() == 0 {
+            return false;
+        }
+        if t == lt {
+            return true;
+        }
+    }
+    m.non_matching_bytes().map_or(false, |nm| nm.contains(lt_byte(d.lt)))
+}
+
+/// Test of the class `transcoder-drops-pending-bytes-at-eof` (see `classify`); `ml`: the stream comes
+/// from a really multi-line search (the input is read onto the heap through the same decoder with
+/// `read_to_end`, whose spare capacity can be just as small).
+fn transcoder_mechanism(d: &Ds, m: &RegexMatcher, inp: &[u8], reader_strategy: bool, got: &[String], ml: bool) -> bool {
+    if d.sniff && (inp.starts_with(&[0xFF, 0xFE]) || inp.starts_with(&[0xFE, 0xFF])) && reader_strategy {
+        if let Some(t) = transcoded_text(d, inp) {
+            if t.ends_with(&[0xEF, 0xBF, 0xBD]) {
+                let mut d2 = d.clone();
+                d2.sniff = false;
+                for cut in 1..=2usize {
+                    if run_slice(&d2, m, &t[..t.len() - cut], ml) == got {
+                        return true;
+                    }
+                }
+            }
+        }
+    }
+    false
+}
+
+/// Known-finding class of a difference between the slice search (`spec`) and another strategy
+/// (`got`), "" if none applies.  A class is attributed only when its own mechanism is shown to be at
+/// work in this very case (the test is written next to each class).
+fn classify(d: &Ds, m: &RegexMatcher, inp: &[u8], reader_strategy: bool, spec: &[String], got: &[String]) -> &'static str {
+    // F10b `sink-stop-fast-path-byte-count`.  Mechanism: the sink answers "stop" while the fast
+    // path's `pos` is not the end of the stopping line — ahead of it inside a run of inverted
+    // matches, or behind it when a context line / context break is refused before
+    // `set_pos(line.end())` — so the byte count of `finish` depends on the buffer extent.
+    // Test: (1) the two streams differ ONLY in the byte count of their last event `finish`;
+    // (2) the sink really stopped: the callback with the stop index was made and is not `finish`;
+    // (3) the fast path was taken; (4) the other strategy goes through the roll buffer (two slice
+    // searches see the same buffer extent); (5) the refused callback is a context line / break, or
+    // the search is inverted (a refused `matched` on the non-inverted fast path has `pos` at its end).
+    if let Some(k) = d.stop {
+        if spec.len() == got.len() && spec.len() >= 2 {
+            let n = spec.len() - 1;
+            let only_count = spec[..n] == got[..n]
+                && spec[n].starts_with("finish ")
+                && got[n].starts_with("finish ")
+                && spec[n].split(' ').skip(2).collect::<Vec<_>>() == got[n].split(' ').skip(2).collect::<Vec<_>>();
+            let stopped = k < n;
+            let refused_ctx = stopped && (got[k].starts_with('c') || got[k] == "--");
+            if only_count && stopped && fast_path_taken(d, m) && reader_strategy && (d.invert || refused_ctx) {
+                return "sink-stop-fast-path-byte-count";
+            }
+        }
+    }
+    // `transcoder-drops-pending-bytes-at-eof` (dependency encoding_rs_io 0.1.7, only when the input is
+    // TRANSCODED: BOM sniffing on and a UTF-16 BOM).  Mechanism: at the end of the input the decoder
+    // has to emit U+FFFD (ef bf bd) for an incomplete trailing code unit; when the roll buffer offers
+    // fewer than 4 free bytes for that read, the decoder goes through its "tiny" path, hands out the
+    // first 1-2 bytes, marks itself exhausted and DROPS the rest: the searcher sees the transcoded
+    // text minus its last 1-2 bytes.
+    // Test: (1) sniffing on; (2) the input starts with a UTF-16 BOM; (3) a roll-buffer strategy;
+    // (4) the transcoded text `T` (obtained from a passthru search with the default 64 KiB buffer)
+    // ends with ef bf bd; (5) the stream in question is EXACTLY what the slice search (no sniffing)
+    // delivers for `T` without its last 1 or 2 bytes.
+    if transcoder_mechanism(d, m, inp, reader_strategy, got, false) {
+        return "transcoder-drops-pending-bytes-at-eof";
+    }
+    // F17 `nul-terminator-lf-anchored-matcher`.  Mechanism: the searcher splits on NUL, the matcher
+    // was built as rg builds it for `-U --null-data` (no NUL line terminator on it, so `^` `$` `\b`
+    // stay LF / haystack based); the pattern cannot match NUL, so the fast path asks the matcher about
+    // whole buffers and its verdict depends on where a buffer starts and ends.
+    // The same holds for every other look-around of such a matcher (`\A`, `\z`, `\B`, `(?-m:^)` …).
+    // Test: (1) NUL terminator; (2) matcher built without line terminator; (3) the pattern has a
+    // look-around assertion; (4) the fast path is taken; (5) `f17_mechanism`: on THIS input some line's
+    // verdict differs between "asked alone" and "asked in the whole input".
+    if d.lt == Lt::Nul
+        && !d.fast
+        && ["^", "$", "\\b", "\\B", "\\A", "\\z"].iter().any(|a| d.pat.contains(a))
+        && fast_path_taken(d, m)
+        && f17_mechanism(m, inp, 0)
+    {
         return "nul-terminator-lf-anchored-matcher";
     }
-    let _ = script;
+    // F2 / F24 `fastpath-matcher-not-linesafe` (recorded by C01 for the matcher; here it is the failing
+    // HYPOTHESIS of theorem C02_fast).  Mechanism: with an LF / CRLF terminator the fast path asks the
+    // matcher about whole buffers; a look-around that looks at the bytes around a line (Unicode `\B` /
+    // `\b` next to bytes that are not UTF-8, a CRLF-aware `$`) gives a different verdict at the start of a
+    // roll buffer than in the middle of the slice.
+    // Test: (1) LF or CRLF terminator; (2) the pattern has a look-around assertion; (3) the fast path is
+    // taken; (4) `f17_mechanism` on THIS input: some line's verdict "asked alone" (terminator stripped, as
+    // the slow path does) differs from "asked in the whole input".
+    if matches!(d.lt, Lt::Lf | Lt::Crlf)
+        && ["^", "$", "\\b", "\\B", "\\A", "\\z"].iter().any(|a| d.pat.contains(a))
+        && fast_path_taken(d, m)
+        && linesafe_mechanism(m, inp, d.lt == Lt::Crlf)
+    {
+        return "fastpath-matcher-not-linesafe";
+    }
+    // F17b `byte-terminator-lf-anchored-matcher` (library API only: rg offers LF, CRLF and NUL).
+    // Mechanism: the same, for a terminator byte other than LF and NUL.  `Core::is_line_by_line_fast`
+    // works around grep-regex's LF-based anchors only for NUL (its FIXME); with
+    // `LineTerminator::byte(b';')` the fast path is taken even when the matcher announces `;` as its
+    // terminator, asks it about whole buffers, and `^` / `\A` … match at a buffer start that is not a
+    // line start for the regex.
+    // Test: (1) a terminator byte that is neither LF nor NUL; (2) the pattern has a look-around
+    // assertion; (3) the fast path is taken; (4) `f17_mechanism` for that byte on THIS input.
+    if d.lt == Lt::Semi
+        && ["^", "$", "\\b", "\\B", "\\A", "\\z"].iter().any(|a| d.pat.contains(a))
+        && fast_path_taken(d, m)
+        && f17_mechanism(m, inp, b';')
+    {
+        return "byte-terminator-lf-anchored-matcher";
+    }
     ""
 }
 
@@ -360,6 +602,7 @@ fn certify_line_safe(case: &str, d: &Ds, m: &RegexMatcher, inp: &[u8], drv: &mut
         Lt::Lf => searcher_common::Lt::Lf,
         Lt::Crlf => searcher_common::Lt::Crlf,
         Lt::Nul => searcher_common::Lt::Nul,
+        Lt::Semi => return None,
     };
     let cfg = searcher_common::Cfg {
         lt,
@@ -408,6 +651,20 @@ fn certify_line_safe(case: &str, d: &Ds, m: &RegexMatcher, inp: &[u8], drv: &mut
     Some(all)
 }
 
+/// Binary detection on, a strategy that goes through the roll buffer: may it disagree with the slice
+/// search on this input (see `Ds::detection_windows_differ`)? Computed from input, terminator and strategy.
+fn detection_may_differ(d: &Ds, inp: &[u8], st: &Strat) -> bool {
+    let seen = if d.sniff { transcoded_text(d, inp).unwrap_or_else(|| inp.to_vec()) } else { inp.to_vec() };
+    // the first fill reaches at least through the first terminator (it keeps reading until it has one);
+    // a plain file read without a decoder in front hands over the first 64 KiB at once
+    let first_line = seen.iter().position(|&b| b == lt_byte(d.lt)).map_or(seen.len(), |i| i + 1);
+    let first_read = match st {
+        Strat::Path { .. } | Strat::File { .. } if !d.sniff => first_line.max(seen.len().min(65536)),
+        _ => first_line,
+    };
+    d.detection_windows_differ(&seen, first_read)
+}
+
 fn run_ds(case: &str, d: &Ds, scratch: &Path, drv: &mut Driver, rep: &mut Report) {
     rep.eval();
     let m = match d.matcher() {
@@ -448,6 +705,22 @@ fn run_ds(case: &str, d: &Ds, scratch: &Path, drv: &mut Driver, rep: &mut Report
     }
     if !d.sniff {
         rep.branch(if BOMS.iter().any(|b| inp.starts_with(b)) { "ds:no-sniff-bom-input" } else { "ds:no-sniff" });
+    } else if BOMS.iter().any(|b| inp.starts_with(b)) {
+        rep.branch("ds:bom-input-transcoded");
+    }
+    if inp.iter().any(|&b| b >= 0x80) {
+        rep.branch("ds:non-ascii-bytes");
+    }
+    if let Input::Long(_) = d.input {
+        rep.branch("ds:lines-longer-than-64KiB");
+    }
+    if d.det != 0 {
+        rep.branch(match (d.det, inp.contains(&0)) {
+            (1, false) => "ds:detection-quit:no-nul",
+            (1, true) => "ds:detection-quit:nul",
+            (_, false) => "ds:detection-convert:no-nul",
+            (_, true) => "ds:detection-convert:nul",
+        });
     }
     // the hypothesis of theorem C02_fast, certified for this case: the real matcher is line safe
     // (executable `lineSafeCheck`, sound by `lineSafeCheck_sound`) on every window of the input the
@@ -456,7 +729,18 @@ fn run_ds(case: &str, d: &Ds, scratch: &Path, drv: &mut Driver, rep: &mut Report
     let max_ctx = if d.passthru { 0 } else { d.after.max(d.before) };
     let has_ctx_event = spec.iter().any(|e| e.starts_with('c'));
     let mut file: Option<PathBuf> = None;
+    // a multi_line request for a pattern that CAN match the terminator is a different search; its
+    // spec is the multi-line slice search (the strategies must still agree among themselves)
+    let mut spec_ml: Option<Vec<String>> = None;
     for st in &d.strats {
+        let wants_ml = match st {
+            Strat::SliceMl => true,
+            Strat::Reader { ml, .. } | Strat::Path { ml, .. } | Strat::File { ml, .. } => *ml,
+        };
+        let real_ml = wants_ml && !ml_downgrades;
+        if real_ml && spec_ml.is_none() {
+            spec_ml = Some(run_slice(d, &m, &inp, true));
+        }
         let (got, name, script): (Vec<String>, String, Vec<Step>) = match st {
             Strat::SliceMl => {
                 if !ml_downgrades {
@@ -466,8 +750,8 @@ fn run_ds(case: &str, d: &Ds, scratch: &Path, drv: &mut Driver, rep: &mut Report
                 (run_slice(d, &m, &inp, true), "search_slice multi_line(true)".into(), vec![])
             }
             Strat::Reader { cap, heap, ml, script } => {
-                if *ml && !ml_downgrades {
-                    continue;
+                if real_ml {
+                    rep.branch("ds:reader-ml-real");
                 }
                 let heap = match heap {
                     Some(0) => {
@@ -478,8 +762,36 @@ fn run_ds(case: &str, d: &Ds, scratch: &Path, drv: &mut Driver, rep: &mut Report
                 };
                 let (ev, log) = run_reader(d, &m, &inp, *cap, heap, *ml, script);
                 if heap.is_some() && ev.last().map_or(false, |l| l == "err:alloc") {
-                    // the property only speaks about sufficient heap limits
-                    rep.branch("ds:heap-insufficient(skipped)");
+                    // theorem C02_heap_limit: an insufficient heap limit ends the search with the
+                    // allocation error after a PREFIX of the slice search's callbacks
+                    let want = if real_ml { spec_ml.as_ref().unwrap() } else { &spec };
+                    let n = ev.len() - 1;
+                    if n <= want.len() && ev[..n] == want[..n] {
+                        rep.branch("ds:heap-insufficient-error-after-prefix");
+                    } else {
+                        let class = if d.det != 0 && !real_ml && detection_may_differ(d, &inp, st) {
+                            "binary-detection-window-by-strategy"
+                        } else if real_ml {
+                            ""
+                        } else {
+                            classify(d, &m, &inp, true, want, &ev)
+                        };
+                        if class.is_empty() {
+                            rep.branch("class:unclassified");
+                        } else {
+                            rep.branch(&format!("class:{}:attributed", class));
+                        }
+                        rep.violation(Violation {
+                            kind: "impl_vs_spec".into(),
+                            class: class.into(),
+                            tie: "theorem C02_heap_limit: allocation error only after a prefix of search_slice's callbacks".into(),
+                            case: case.to_string(),
+                            detail: format!(
+                                "pattern {:?}: search_reader cap={:?} heap={:?} ml={} fails after callbacks that are not a prefix: {}",
+                                d.pat, cap, heap, ml, first_diff(want, &ev)
+                            ),
+                        });
+                    }
                     continue;
                 }
                 rep.branch("ds:reader");
@@ -503,9 +815,9 @@ fn run_ds(case: &str, d: &Ds, scratch: &Path, drv: &mut Driver, rep: &mut Report
                     script.clone(),
                 )
             }
-            Strat::Path { mmap, ml } => {
-                if *ml && !ml_downgrades {
-                    continue;
+            Strat::Path { mmap, ml } | Strat::File { mmap, ml } => {
+                if real_ml {
+                    rep.branch("ds:path-ml-real");
                 }
                 if file.is_none() {
                     std::fs::create_dir_all(scratch).ok();
@@ -513,12 +825,60 @@ fn run_ds(case: &str, d: &Ds, scratch: &Path, drv: &mut Driver, rep: &mut Report
                     std::fs::write(&p, &inp).expect("write scratch file");
                     file = Some(p);
                 }
-                rep.branch(if *mmap { "ds:path-mmap" } else { "ds:path-read" });
-                (run_path(d, &m, file.as_ref().unwrap(), *mmap, *ml), format!("search_path mmap={} ml={}", mmap, ml), vec![])
+                let as_file = matches!(st, Strat::File { .. });
+                rep.branch(match (as_file, *mmap) {
+                    (false, true) => "ds:path-mmap",
+                    (false, false) => "ds:path-read",
+                    (true, true) => "ds:file-mmap",
+                    (true, false) => "ds:file-read",
+                });
+                (
+                    run_path_or_file(d, &m, file.as_ref().unwrap(), *mmap, *ml, as_file),
+                    format!("search_{} mmap={} ml={}", if as_file { "file" } else { "path" }, mmap, ml),
+                    vec![],
+                )
             }
         };
-        if got != spec {
-            let class = classify(d, &spec, &got, &script);
+        let spec: &Vec<String> = if real_ml { spec_ml.as_ref().unwrap() } else { &spec };
+        let reader_strategy =
+            matches!(st, Strat::Reader { .. } | Strat::Path { mmap: false, .. } | Strat::File { mmap: false, .. });
+        // binary detection on: the roll buffer's detection window is not the slice's (by design)
+        let det_differs = d.det != 0 && reader_strategy && !real_ml && detection_may_differ(d, &inp, st);
+        if d.det != 0 && reader_strategy && !real_ml && inp.contains(&0) {
+            rep.branch(if det_differs {
+                "ds:detection:nul-outside-common-window(may differ)"
+            } else {
+                "ds:detection:nul-inside-common-window(must agree)"
+            });
+        }
+        if &got != spec {
+            // (a really multi-line search has no line-by-line fast path: no class applies to it)
+            let class = if det_differs {
+                "binary-detection-window-by-strategy"
+            } else if real_ml {
+                if transcoder_mechanism(d, &m, &inp, reader_strategy, &got, true) {
+                    "transcoder-drops-pending-bytes-at-eof"
+                } else {
+                    ""
+                }
+            } else {
+                classify(d, &m, &inp, reader_strategy, spec, &got)
+            };
+            let _ = &script;
+            if class.is_empty() {
+                rep.branch("class:unclassified");
+                rep.branch(&format!(
+                    "unclassified:pat={}:fast={}:lt={:?}:inv={}:stop={}:{}",
+                    d.pat,
+                    d.fast as u8,
+                    d.lt,
+                    d.invert as u8,
+                    d.stop.is_some() as u8,
+                    if reader_strategy { "reader" } else { "slice-like" }
+                ));
+            } else {
+                rep.branch(&format!("class:{}:attributed", class));
+            }
             if certified == Some(true) && d.stop.is_none() && class.is_empty() {
                 rep.branch("ds:differs-although-C02_fast-applies");
             }
@@ -554,13 +914,16 @@ fn run_ds(case: &str, d: &Ds, scratch: &Path, drv: &mut Driver, rep: &mut Report
         Lt::Lf => "ds:lf",
         Lt::Crlf => "ds:crlf",
         Lt::Nul => "ds:nul",
+        Lt::Semi => "ds:terminator-semicolon",
     });
 }
 
 fn gen_ds(rng: &mut Rng, boundary: bool, big: bool) -> Ds {
-    let lt = *rng.pick(&[Lt::Lf, Lt::Lf, Lt::Crlf, Lt::Nul]);
+    let lt = *rng.pick(&[Lt::Lf, Lt::Lf, Lt::Lf, Lt::Crlf, Lt::Crlf, Lt::Nul, Lt::Nul, Lt::Semi]);
     let pat = rng.pick(&PATTERNS).to_string();
-    let input = if big {
+    let input = if big && rng.chance(1, 4) {
+        Input::Long(rng.next())
+    } else if big {
         // long enough for the real 64 KiB buffer to roll
         Input::Gen(rng.next(), rng.range(2000, 9000), rng.range(10, 60))
     } else if boundary {
@@ -583,7 +946,11 @@ fn gen_ds(rng: &mut Rng, boundary: bool, big: bool) -> Ds {
         let max_lines = *rng.pick(&[3usize, 8, 20, 60]);
         let max_len = *rng.pick(&[3usize, 10, 40]);
         // two thirds of the inputs carry the other settings' terminator bytes inside their records
-        let alpha = if rng.chance(2, 3) { alphabet_with_foreign(lt_byte(lt), b"aabc x") } else { b"aabc x".to_vec() };
+        let mut alpha = if rng.chance(2, 3) { alphabet_with_foreign(lt_byte(lt), b"aabc x") } else { b"aabc x".to_vec() };
+        if rng.chance(1, 4) {
+            // non-ASCII text and bytes that are not UTF-8
+            alpha.extend_from_slice(&[0xC3, 0xA9, 0xE2, 0x82, 0xAC, 0x80, 0xFF]);
+        }
         Input::Hex(gen_lines(rng, lt_byte(lt), lt == Lt::Crlf, max_lines, max_len, &alpha))
     };
     let passthru = rng.chance(1, 6);
@@ -599,10 +966,19 @@ fn gen_ds(rng: &mut Rng, boundary: bool, big: bool) -> Ds {
         son: rng.chance(1, 5),
         stop: if rng.chance(1, 5) { Some(rng.below(9)) } else { None },
         sniff: true,
+        // binary detection on (never with NUL as the terminator: rg turns detection off there)
+        det: if lt != Lt::Nul && rng.chance(1, 8) { *rng.pick(&[1u8, 1, 2]) } else { 0 },
         input,
         strats: vec![],
     };
-    if !big && rng.chance(1, 5) {
+    if !big && rng.chance(1, 12) {
+        // BOM sniffing on and a BOM at the start: every strategy hands the input to the transcoder
+        if let Input::Hex(v) = &d.input {
+            let mut w = rng.pick(&BOMS).to_vec();
+            w.extend_from_slice(v);
+            d.input = Input::Hex(w);
+        }
+    } else if !big && rng.chance(1, 5) {
         // no BOM sniffing: the mark is data, for the reader as for the slice
         d.sniff = false;
         if rng.chance(3, 4) {
@@ -648,6 +1024,11 @@ fn gen_ds(rng: &mut Rng, boundary: bool, big: bool) -> Ds {
         if rng.chance(1, 3) {
             d.strats.push(Strat::Path { mmap: true, ml: rng.chance(1, 3) });
             d.strats.push(Strat::Path { mmap: false, ml: rng.chance(1, 3) });
+            d.strats.push(Strat::File { mmap: rng.chance(1, 2), ml: rng.chance(1, 3) });
+        }
+        if rng.chance(1, 5) {
+            // a heap limit that is too small somewhere: the search must fail after a prefix
+            d.strats.push(Strat::Reader { cap: None, heap: Some(rng.range(1, 12)), ml: rng.chance(1, 4), script: gen_script(rng, len, false) });
         }
     }
     d
@@ -946,20 +1327,56 @@ fn run_rb(case: &str, c: &Rb, drv: &mut Driver, rep: &mut Report) {
     // the C02 statement inside the model: reader run = slice run (never expected to differ when the
     // matcher is context-independent, which a literal is)
     let slice = drv.ask(&format!("c02.slice {} {} {} {}", eff.to_sx(), c.m.to_sx(), hex(&c.inp), c.sink.to_sx()));
-    let alloc_err = r.is_err() && c.heap.is_some() && matches!(c.sink, searcher_common::Script::All);
-    let strip_fin = |s: &str| s.split(';').filter(|e| !e.starts_with("fin ")).collect::<Vec<_>>().join(";");
-    if model != slice && matches!(c.sink, searcher_common::Script::Stop(_)) && strip_fin(&model) == strip_fin(&slice) {
-        rep.branch("rb:F10b-sink-stop-byte-count");
-        return;
-    }
-    if model != slice && !alloc_err && !(c.heap.is_some() && model.ends_with("|err")) {
-        rep.violation(Violation {
-            kind: "model_vs_spec".into(),
-            class: "".into(),
-            tie: "C02 in the model: events (searchReader …) = events (searchSlice …)".into(),
-            case: case.to_string(),
-            detail: format!("reader model {} slice model {}", &model[..model.len().min(600)], &slice[..slice.len().min(600)]),
-        });
+    if model != slice {
+        let split = |s: &str| -> (Vec<String>, String) {
+            let (e, r) = s.rsplit_once('|').unwrap_or((s, ""));
+            (e.split(';').filter(|x| !x.is_empty()).map(|x| x.to_string()).collect(), r.to_string())
+        };
+        let (mev, mres) = split(&model);
+        let (sev, sres) = split(&slice);
+        // (1) theorem C02_heap_limit: under a heap limit the reader may fail with the allocation
+        // error after a PREFIX of the slice searcher's callbacks -- and only then
+        let heap_prefix = c.heap.is_some() && mres == "err" && mev.len() <= sev.len() && sev[..mev.len()] == mev[..];
+        // (2) F10b `sink-stop-fast-path-byte-count`, same mechanism test as in `classify`:
+        // only the byte count of the last event `fin` differs, the sink stopped (callback `k` was made
+        // and is not `fin`), the fast path was taken, and the refused callback is a context line /
+        // break or the search is inverted
+        let f10b = match c.sink {
+            searcher_common::Script::Stop(k) if mev.len() == sev.len() && mev.len() >= 2 && mres == sres => {
+                let n = mev.len() - 1;
+                let only_count = mev[..n] == sev[..n]
+                    && mev[n].starts_with("fin ")
+                    && sev[n].starts_with("fin ")
+                    && mev[n].split(' ').skip(2).collect::<Vec<_>>() == sev[n].split(' ').skip(2).collect::<Vec<_>>();
+                let stopped = k < n;
+                let refused_ctx = stopped && (mev[k].starts_with("c ") || mev[k] == "brk");
+                let lt = c.cfg.lt;
+                let fast = !eff.pt
+                    && !(eff.son && eff.inv)
+                    && match c.m.term {
+                        Some(t) => t == lt && lt != searcher_common::Lt::Nul,
+                        None => c.m.nm.as_ref().map_or(false, |b| b.contains(&lt.byte())),
+                    };
+                only_count && stopped && fast && (eff.inv || refused_ctx)
+            }
+            _ => false,
+        };
+        if heap_prefix {
+            rep.branch("rb:heap-limit-error-after-prefix");
+        } else if f10b {
+            rep.branch("class:sink-stop-fast-path-byte-count:attributed(model)");
+            rep.branch("rb:F10b-sink-stop-byte-count");
+            return;
+        } else {
+            rep.branch("class:unclassified");
+            rep.violation(Violation {
+                kind: "model_vs_spec".into(),
+                class: "".into(),
+                tie: "C02 in the model: events (searchReader …) = events (searchSlice …)".into(),
+                case: case.to_string(),
+                detail: format!("reader model {} slice model {}", &model[..model.len().min(600)], &slice[..slice.len().min(600)]),
+            });
+        }
     }
     rep.branch("rb:run");
     if c.cfg.ml {
@@ -1048,6 +1465,191 @@ fn gen_rb(rng: &mut Rng, boundary: bool) -> Rb {
     Rb { cfg, m, inp, cap, heap, script, sink, sniff }
 }
 
+
+// ---------------------------------------------------------------- cl cases: the rg binary, three ways in
+
+/// `rg` itself on one file given three ways: memory map, `--no-mmap` (roll buffer on a `File`), and on
+/// stdin (roll buffer on a pipe). stdout must be byte-identical. Inputs hold no NUL unless `-a` /
+/// `--null-data` switches binary detection off (with detection on the strategies differ by design,
+/// class binary-detection-window-by-strategy).
+#[derive(Clone, Debug)]
+struct Cl {
+    pat: String,
+    flags: Vec<String>,
+    inp: Vec<u8>,
+}
+
+const CL_FLAGS: [&str; 30] = [
+    "-n", "-N", "-A1", "-B2", "-C1", "-v", "--crlf", "-U", "-c", "--count-matches", "-o", "-m2", "--passthru",
+    "--stop-on-nonmatch", "-b", "--column", "--vimgrep", "--null-data", "-a", "-r[$0]", "--trim", "-M20", "-w", "-x",
+    "-i", "-F", "-Elatin1", "--no-unicode", "--max-columns-preview", "--no-encoding",
+];
+
+impl Cl {
+    fn case_str(&self) -> String {
+        format!("cl pat={} flags={} inp={}", hex(self.pat.as_bytes()), hex(self.flags.join(" ").as_bytes()), hex(&self.inp))
+    }
+    fn parse(parts: &[&str]) -> Option<Cl> {
+        let get = |k: &str| parts.iter().find_map(|p| p.strip_prefix(k).and_then(|r| r.strip_prefix('=')));
+        let flags = String::from_utf8(unhex(get("flags")?)?).ok()?;
+        Some(Cl {
+            pat: String::from_utf8(unhex(get("pat")?)?).ok()?,
+            flags: flags.split(' ').filter(|f| !f.is_empty()).map(|f| f.to_string()).collect(),
+            inp: unhex(get("inp")?)?,
+        })
+    }
+}
+
+fn run_cl(case: &str, c: &Cl, args: &Args, rep: &mut Report) {
+    use std::process::Command;
+    let rg = match &args.rg {
+        Some(p) => p.clone(),
+        None => {
+            rep.branch("cl:skipped-no-rg");
+            return;
+        }
+    };
+    rep.eval();
+    let dir = args.scratch.join("cl");
+    std::fs::create_dir_all(&dir).ok();
+    let file = dir.join("f");
+    std::fs::write(&file, &c.inp).expect("write scratch file");
+    let run = |how: &str| -> (Option<i32>, Vec<u8>, String) {
+        let mut cmd = Command::new(&rg);
+        cmd.current_dir(&dir).env_clear();
+        cmd.arg("--no-config").arg("--color=never").arg("-I");
+        for f in &c.flags {
+            cmd.arg(f);
+        }
+        cmd.arg("-e").arg(&c.pat);
+        match how {
+            "mmap" => {
+                cmd.arg("--mmap").arg("f");
+            }
+            "read" => {
+                cmd.arg("--no-mmap").arg("f");
+            }
+            _ => {
+                cmd.stdin(std::fs::File::open(&file).expect("open scratch file"));
+            }
+        }
+        let out = cmd.output().expect("run rg");
+        (out.status.code(), out.stdout, String::from_utf8_lossy(&out.stderr).to_string())
+    };
+    let (rc0, out0, err0) = run("mmap");
+    if rc0 == Some(2) && out0.is_empty() {
+        rep.branch("cl:rg-error(flags/pattern)");
+        let _ = err0;
+        return;
+    }
+    for f in &c.flags {
+        rep.branch(&format!("cl:flag:{}", f));
+    }
+    for how in ["read", "stdin"] {
+        let (rc, out, err) = run(how);
+        rep.branch(&format!("cl:mmap-vs-{}", how));
+        if err.contains("panicked") || rc.is_none() {
+            rep.violation(Violation {
+                kind: "impl_vs_spec".into(),
+                class: "".into(),
+                tie: "rg must not crash".into(),
+                case: case.to_string(),
+                detail: format!("rg ({}) ended with {:?}: {}", how, rc, &err[..err.len().min(300)]),
+            });
+            continue;
+        }
+        if out != out0 || rc != rc0 {
+            // F17 by its second route (no -U needed): under --null-data a pattern with a haystack anchor or
+            // -w / -x makes grep-regex drop its line terminator, NUL stays in non_matching_bytes, the fast
+            // path is taken with a regex that knows nothing about NUL records. Mechanism test: the matcher
+            // rg builds for these flags gives some record a verdict alone that differs from its verdict in
+            // the whole input.
+            let null_data = match (c.flags.iter().position(|f| f == "--null-data"), c.flags.iter().position(|f| f == "--crlf")) {
+                (Some(z), Some(cr)) => z > cr,
+                (Some(_), None) => true,
+                _ => false,
+            };
+            let has = |f: &str| c.flags.iter().any(|x| x == f);
+            let class = if null_data && !has("-U") {
+                let mut b = RegexMatcherBuilder::new();
+                b.multi_line(true)
+                    .unicode(!has("--no-unicode"))
+                    .fixed_strings(has("-F"))
+                    .case_insensitive(has("-i"))
+                    .word(has("-w"))
+                    .whole_line(has("-x"))
+                    .line_terminator(Some(0));
+                match b.build(&c.pat) {
+                    Ok(m) if f17_mechanism(&m, &c.inp, 0) => "nul-terminator-lf-anchored-matcher",
+                    _ => "",
+                }
+            } else {
+                ""
+            };
+            if class.is_empty() {
+                rep.branch("class:unclassified");
+            } else {
+                rep.branch(&format!("class:{}:attributed", class));
+            }
+            rep.violation(Violation {
+                kind: "impl_vs_spec".into(),
+                class: class.into(),
+                tie: "rg's stdout and exit code for one file: --mmap vs --no-mmap vs stdin".into(),
+                case: case.to_string(),
+                detail: format!(
+                    "rg {} -e {:?}: --mmap f wrote {:?} (exit {:?}), {} wrote {:?} (exit {:?})",
+                    c.flags.join(" "),
+                    c.pat,
+                    show(&out0[..out0.len().min(300)]),
+                    rc0,
+                    if how == "read" { "--no-mmap f" } else { "< f" },
+                    show(&out[..out.len().min(300)]),
+                    rc
+                ),
+            });
+        }
+    }
+    if !out0.is_empty() && c.inp.len() > 1 {
+        rep.nontrivial(case);
+    }
+}
+
+fn gen_cl(rng: &mut Rng, big: bool) -> Cl {
+    let mut flags: Vec<String> = vec![];
+    for _ in 0..rng.range(0, 5) {
+        let f = rng.pick(&CL_FLAGS).to_string();
+        if !flags.contains(&f) {
+            flags.push(f);
+        }
+    }
+    // `--null-data -U` is F17 (nul-terminator-lf-anchored-matcher), recorded with its own witness
+    if flags.iter().any(|f| f == "--null-data") {
+        flags.retain(|f| f != "-U");
+    }
+    let text_mode = flags.iter().any(|f| f == "-a" || f == "--null-data");
+    let mut alpha: Vec<u8> = b"aabc x\r".to_vec();
+    if text_mode {
+        alpha.push(0);
+    }
+    if rng.chance(1, 4) {
+        alpha.extend_from_slice(&[0xC3, 0xA9, 0xE2, 0x82, 0xAC, 0x80, 0xFF]);
+    }
+    let crlf = flags.iter().any(|f| f == "--crlf") || rng.chance(1, 6);
+    let inp = if big {
+        // beyond the 64 KiB buffer
+        let mut v = vec![];
+        let want = 70000 + rng.below(70000);
+        while v.len() < want {
+            v.extend(gen_lines(rng, b'\n', crlf, 60, 40, &alpha));
+        }
+        v
+    } else {
+        let (ml, mx) = (*rng.pick(&[3usize, 8, 20, 60]), *rng.pick(&[3usize, 10, 40]));
+        gen_lines(rng, b'\n', crlf, ml, mx, &alpha)
+    };
+    Cl { pat: rng.pick(&PATTERNS).to_string(), flags, inp }
+}
+
 fn run_case(case: &str, args: &Args, drv: &mut Driver, rep: &mut Report) {
     let parts: Vec<&str> = case.split(' ').collect();
     match parts.first().copied() {
@@ -1061,6 +1663,10 @@ fn run_case(case: &str, args: &Args, drv: &mut Driver, rep: &mut Report) {
         },
         Some("ds") => match Ds::parse(&parts) {
             Some(d) => run_ds(case, &d, &args.scratch, drv, rep),
+            None => rep.notes.push(format!("unparsable case: {}", case)),
+        },
+        Some("cl") => match Cl::parse(&parts) {
+            Some(c) => run_cl(case, &c, args, rep),
             None => rep.notes.push(format!("unparsable case: {}", case)),
         },
         Some("hs") => match Hs::parse(&parts) {
@@ -1087,7 +1693,11 @@ fn main() {
          CRLF + multi_line + patterns / literal matchers that can match CR but never LF; inputs starting with a UTF-8/UTF-16 \
          BOM under bom_sniffing(false). hs: one Searcher (line by line or really multi-line, mmap on/off) reused for 2-5 \
          inputs through search_slice / search_reader / search_path / search_file, each search compared with a fresh \
-         Searcher's. Distinct by case text.",
+         Searcher's. ds also: 33 pattern shapes (\\A \\z (?-m:^) (?-m:$) \\B \\b), terminator ';', non-UTF-8 bytes, BOM with \
+         sniffing on (transcoded), lines longer than 64 KiB (thorough), real multi-line searches vs the multi-line slice \
+         search, insufficient heap limits (prefix), search_file, binary detection quit/convert (agreement required inside \
+         the common detection window). cl: the rg binary on one file via --mmap / --no-mmap / stdin with 0-4 random flags: \
+         stdout and exit code identical. Distinct by case text.",
     );
     quiet_panics();
     for c in corpus_cases(&args) {
@@ -1096,11 +1706,15 @@ fn main() {
     if args.replay.is_none() {
         let mut rng = Rng::new(args.seed);
         let n = args.cases.unwrap_or(if args.thorough { 40000 } else { 3000 });
+        // probing aid: RGV_C02_STREAM=cl runs that stream alone
+        let only_stream = std::env::var("RGV_C02_STREAM").ok();
         for i in 0..n {
             let case = if i % 3 == 0 {
                 gen_lb_case(&mut rng, Bin::None, i % 30 == 0).case_str()
             } else if i % 3 == 1 {
                 gen_rb(&mut rng, i % 30 == 1).case_str()
+            } else if only_stream.as_deref() == Some("cl") || i % 24 == 11 {
+                gen_cl(&mut rng, i % 240 == 11).case_str()
             } else if i % 12 == 5 {
                 gen_hs(&mut rng).case_str()
             } else {
